@@ -192,11 +192,45 @@ def gen_visitor():
     return d
 
 
+def gen_passes():
+    """T-table: the validation passes of dsl.Validate in order, and whether each starts with the
+    `if len(errorSink.Errors) > 0 { return env }` guard."""
+    d = os.path.join(REPO, "tooling/pkg/dsl")
+    src = open(os.path.join(d, "validation.go")).read()
+    m = re.search(r"passes := \[\]ValidationPass\{(.*?)\n\t\}", src, re.S)
+    if not m:
+        raise RuntimeError("gentables: cannot find the pass list of dsl.Validate")
+    names = re.findall(r"^\s*(\w+),\s*$", m.group(1), re.M)
+    if not re.search(r"for _, pass := range passes \{\s*env = pass\(env, &errorSink\)\s*\}\s*return env, errorSink\.AsError\(\)", src):
+        raise RuntimeError("gentables: dsl.Validate no longer runs every pass and returns errorSink.AsError()")
+    allsrc = "\n".join(open(os.path.join(d, f)).read() for f in sorted(os.listdir(d)) if f.endswith(".go") and not f.endswith("_test.go"))
+    rows = []
+    for n in names:
+        fm = re.search(r"^func %s\(env \*Environment, errorSink \*validation\.ErrorSink\) \*Environment \{\n(.*?)\n\}\n" % n, allsrc, re.S | re.M)
+        if not fm:
+            raise RuntimeError("gentables: cannot find the validation pass " + n)
+        guarded = bool(re.match(r"\s*if len\(errorSink\.Errors\) > 0 \{\s*(//[^\n]*\s*)*return env\s*\}", fm.group(1)))
+        rows.append((n, guarded))
+    L = ["(* GENERATED on every run from tooling/pkg/dsl/validation*.go by harness/lib/gentables.py. Do not edit. *)",
+         "From Coq Require Import List String.", "Import ListNotations.", "Open Scope string_scope.", "",
+         "(* dsl.Validate: (pass, starts with the `errors already reported -> skip` guard) in execution order *)",
+         "Definition validation_passes : list (string * bool) :=",
+         "  [" + ";\n   ".join('("%s", %s)' % (n, "true" if g else "false") for n, g in rows) + "].", ""]
+    text = "\n".join(L)
+    path = os.path.join(COQ, "Gen", "Passes.v")
+    old = open(path).read() if os.path.exists(path) else None
+    if old != text:
+        with open(path, "w") as f:
+            f.write(text)
+    return rows
+
+
 def regenerate(ctx):
     gen_phases()
     gen_map_sites(ctx)
     gen_naming()
     gen_visitor()
+    gen_passes()
     t = json.loads(ctx.hook_call(["tables"]))
     L = ["(* GENERATED on every run from /repo by harness/lib/gentables.py (hook `yardl-verif tables`). Do not edit. *)",
          "From Coq Require Import NArith.", "From YV Require Import Model.Binary.", "Open Scope N_scope.", "",
